@@ -110,6 +110,11 @@ Theorem C18_obj_iter_rep : forall st id,
   (forall vid k, nth_error (heap st) id = Some (OChained vid k) ->
      exists F, Rep F (snd (obj_iter st id)) (fst (obj_iter st id)) (obj_elems KChained (get_vec st vid) k)).
 Proof. exact obj_iter_rep. Qed.
+(* --- a range value is immutable: its elements depend only on its bounds (language-level consequence of the range
+   cache handing out objects that are never written after creation; the cache itself is C16's) --- *)
+Theorem C18_range_value_immutable : forall st id a e, nth_error (heap st) id = Some (ORange a e) ->
+  Rep 1 (snd (obj_iter st id)) (fst (obj_iter st id)) (elements (SrcRange a e)).
+Proof. exact range_value_immutable. Qed.
 Theorem C18_obj_iter_idem : forall st id, obj_iter (snd (obj_iter st id)) (fst (obj_iter st id)) = obj_iter st id.
 Proof. exact obj_iter_idem. Qed.
 
@@ -118,6 +123,7 @@ Print Assumptions C18_side_consumers_covered.
 Print Assumptions C18_side_adapter_iter_is_self.
 Print Assumptions C18_obj_iter_rep.
 Print Assumptions C18_obj_iter_idem.
+Print Assumptions C18_range_value_immutable.
 Print Assumptions C18_sentinel_uniform.
 Print Assumptions C18_next_enumerates.
 Print Assumptions C18_fresh_iter_rep.
